@@ -79,7 +79,7 @@ def respawn_case(rng):
 
 def gen(rng, tier):
     quick = tier == "quick"
-    n = 3500 if quick else 60000
+    n = 2400 if quick else 40000
     for _ in range(4 if quick else 40):
         yield respawn_case(rng)
     for i in range(n):
@@ -155,7 +155,7 @@ def features(trace):
     return fs
 
 
-def run_impl(exe, cases, tmo, max_hangs=6):
+def run_impl(exe, cases, tmo, max_hangs=4):
     """Runs the scenario driver over `cases` in parallel chunks.  The driver gives up on
     its process when a scenario hangs (it prints `hang ...` and exits): the chunk then
     continues in a fresh process; after `max_hangs` hangs the rest of the chunk is not run."""
@@ -296,7 +296,7 @@ MANIFEST = {
                    "started twice; when await_shutdown has returned all accepted tasks are done and no group thread is live; "
                    "submissions after the pool flag is set are refused and group shutdown sets it; no usize underflow; no deadlock "
                    "after shutdown was requested and a well-founded measure decreasing on every non-environment step. The old worker "
-                   "loop is refuted by a witness schedule. The real code is tied to the LTS by trace validation: ~3500 (quick) "
+                   "loop is refuted by a witness schedule. The real code is tied to the LTS by trace validation: ~2400 (quick) "
                    "randomized runs of the hooked thread.rs (delays forced into the critical sections) whose linearised event "
                    "traces must all be accepted by the extracted LTS (validator proved sound), plus end-to-end counters."),
     "level_note": ("Proof of the model + trace refinement on sampled runs; PARTIAL with respect to the runtime: std Mutex/Condvar "
